@@ -103,6 +103,10 @@ def text_from_bytes(data):
     return data.decode("utf-8", "ignore")
 
 
+def sane_url(s):
+    return parseable_url_from_bytes(s.encode("utf-8", "ignore")) is not None
+
+
 def parseable_url_from_bytes(data):
     """a string the library's own preprocessing can parse (control characters and surrounding whitespace removed, a scheme prefixed when there
     is none, urlsplit and its port accept it and there is a host); anything else is outside the domain of the URL-level relations"""
@@ -118,8 +122,8 @@ def parseable_url_from_bytes(data):
         sp.port
     except ValueError:
         return None
-    if not sp.hostname or any(c.isspace() for c in sp.hostname):
-        return None     # no host, or a "host" containing whitespace: not a name (same restriction as C07)
+    if not sp.hostname or any(c.isspace() for c in sp.netloc):
+        return None     # no host, or whitespace inside the authority (host or userinfo): not a name / not a URL (same restriction as C07)
     hostport = sp.netloc.rpartition("@")[2]
     if "[" in hostport or "]" in hostport:
         # an IP literal must be one: '[' valid address ']' optional port (urlsplit lets '[::1%3[::1]9' through)
